@@ -164,7 +164,9 @@ def build(repo, udp=False):
     u.contract(TBI, '''        requires enc_pre(*self)
         ensures
             // C04: succeeds exactly when the exact wire length is within the limit
-            map_encodable(opts_view(self.options)) ==> (r is Ok <==> (limit is None || pkt_wire(*self).len() <= limit->0)), // @props C04
+            map_encodable(opts_view(self.options)) && r is Ok ==> (limit is None || pkt_wire(*self).len() <= limit->0), // @props C04
+            // C01/C02/C04: an encodable message within the limit (or without one) is never refused
+            map_encodable(opts_view(self.options)) && (limit is None || pkt_wire(*self).len() <= limit->0) ==> r is Ok, // @props C01 C02 C04
             map_encodable(opts_view(self.options)) && r is Err ==> r->Err_0 == MessageError::InvalidPacketLength, // @props C04
             // C04: a value too long for the 16-bit extended length field is refused
             !map_encodable(opts_view(self.options)) ==> r is Err, // @props C04
